@@ -33,6 +33,9 @@ def run(ck, ctx):
     ck.rule("R01.7", "unit siblings agree: EXPIRE/PEXPIRE, EXPIREAT/PEXPIREAT, TTL/PTTL, EXPIRETIME/PEXPIRETIME have the same decision "
                      "skeleton (flag tests, Option/ordering tests, map updates, returned integers) once unit-conversion arithmetic "
                      "is ignored")
+    ck.rule("R01.8", "a conditional command refuses before it writes: no `0`/nil reply that is decided directly by a keyspace existence "
+                     "test (contains_key / get_value / is_expired) is reachable from a visible write site of the same handler, loop back "
+                     "edges included (MSETNX is all-or-nothing; SETNX/RENAMENX/EXPIRE-family refuse with the keyspace untouched)")
     ck.nd("equality of every reply and of the keyspace with Redis for all argument values (needs a reference model + execution)")
     ck.nd("option-combination semantics, numeric results")
     for cfg in ctx.configs:
@@ -46,6 +49,7 @@ def run(ck, ctx):
         _r014(ck, prog, cfg, meths)
         _r015(ck, prog, cfg, meths)
         _r016(ck, prog, cfg, meths)
+        _r018(ck, prog, cfg, meths)
         _r017(ck, prog, cfg)
 
 
@@ -438,6 +442,47 @@ def _r016(ck, prog, cfg, meths):
                      f.where(ct["ln"]), detail="every path adds an element or removes the key")
     ck.floor("R01.6" + _tag(cfg), n, 6)
     ck.assume("R01.6: loops over a command's element slice run at least once (the parsers reject empty element lists)")
+
+
+KS_TESTS = (MAP + r"(contains_key|get|get_mut)\b", r"CommandExecutor::(get_value|get_value_mut|is_expired)$")
+
+
+def _r018(ck, prog, cfg, meths):
+    writers = effects.writer_set(prog)
+    n = 0
+    for m, f in _bodies(prog, meths):
+        ws = None
+        k = 0
+        for b, i, st in f.stmts():
+            rv = st["rv"]
+            if st["lhs"] != {"l": 0} or rv["k"] != "agg" or not rv.get("ops"):
+                continue
+            if rv["n"] == "redis::resp::RespValue::Integer" and rv["ops"][0].get("c", "").strip() in ("const 0_i64", "0_i64"):
+                kind = "0"
+            elif rv["n"] == "redis::resp::RespValue::BulkString" and "None" in str(rv["ops"][0]):
+                kind = "nil"
+            else:
+                continue
+            ctl = None
+            for sb, _ in lib2.controlling_switches(f, b):
+                si = switch_info(f, sb)
+                s_ = si["src"] if si else None
+                if s_ is not None and s_.kind == "call" and is_callee(s_.term, *KS_TESTS):
+                    ctl = callee(s_.term).rsplit("::", 1)[-1].split("<")[0]
+            if ctl is None:
+                continue
+            n += 1
+            if ws is None:
+                ws = effects.write_sites(prog, f, writers)
+            before = [w for w in ws if b in f.reach([w["b"]])]
+            key = "%s:refusal(%s)#%d%s" % (f.short, kind, k, _tag(cfg))
+            k += 1
+            ck.check(not before, "R01.8", key,
+                     "the reply `%s` decided by %s can be reached after the command has already written (%s): the command refuses with "
+                     "part of its effect applied (Redis applies a conditional multi-key command entirely or not at all)"
+                     % (kind, ctl, ", ".join("%s @%s" % (w["what"], w["ln"]) for w in before[:3])), f.where(st["ln"]),
+                     detail="refusal precedes every write")
+    ck.floor("R01.8" + _tag(cfg), n, 10)
 
 
 def _purge_or_move(f, b, t):
